@@ -52,6 +52,8 @@ type c17mObs struct {
 	Snaps []c17mSnap `json:"snaps"`
 }
 
+const c17mPatience = 40 * time.Second // bound of polls for definite events; only ends a genuine hang
+
 func c17mCid(i int) string { return "c17-" + strconv.Itoa(i) }
 
 type c17mRun struct {
@@ -62,7 +64,7 @@ type c17mRun struct {
 }
 
 func (r *c17mRun) connect(cid int) (int, string) {
-	sock, err := net.DialTimeout("tcp", r.addr, 3*time.Second)
+	sock, err := net.DialTimeout("tcp", r.addr, c17mPatience)
 	if err != nil {
 		return -1, "dial"
 	}
@@ -75,7 +77,7 @@ func (r *c17mRun) connect(cid int) (int, string) {
 		c17mKill(sock)
 		return -1, "write"
 	}
-	sock.SetReadDeadline(time.Now().Add(3 * time.Second))
+	sock.SetReadDeadline(time.Now().Add(c17mPatience))
 	p, err := packets.ReadPacket(sock)
 	sock.SetReadDeadline(time.Time{})
 	if err != nil {
@@ -94,7 +96,7 @@ func (r *c17mRun) connect(cid int) (int, string) {
 	// round trip: the connection's read loop is running
 	ping := packets.NewControlPacket(packets.Pingreq)
 	ping.Write(sock)
-	sock.SetReadDeadline(time.Now().Add(3 * time.Second))
+	sock.SetReadDeadline(time.Now().Add(c17mPatience))
 	_, err = packets.ReadPacket(sock)
 	sock.SetReadDeadline(time.Time{})
 	if err != nil {
@@ -149,9 +151,10 @@ func (r *c17mRun) endSocks(socks []net.Conn) string {
 	for _, s := range socks {
 		c17mKill(s)
 	}
-	deadline := time.Now().Add(3 * time.Second)
+	deadline := time.Now().Add(c17mPatience)
 	for i := 0; ; i++ {
-		if c17mHandlers() <= r.liveCount() {
+		live := r.liveCount() // before the goroutine dump, see the C16 harness
+		if c17mHandlers() <= live {
 			return ""
 		}
 		if time.Now().After(deadline) {
@@ -341,5 +344,5 @@ func c17mGen(r *verifh.Rand, i int) interface{} {
 }
 
 func TestVerifC17Mqtt(t *testing.T) {
-	verifh.Run(t, c17mGen, c17mExec, 60*time.Second)
+	verifh.Run(t, c17mGen, c17mExec, 180*time.Second)
 }
